@@ -156,6 +156,14 @@ def check(case, out):
                 compare(val, rv, f"seq({case['seqtype']}, {order}) u={lp}")
     # (c) outside
     uo = case["outside"] if exact else lib.conv_param(case["outside"], num)
+    if not exact and ref.U[0] <= oracle.frac(uo) <= ref.U[-1]:
+        # the tiny distance was rounded away: step one unit in the last place outside the interval instead
+        import math
+        below = case["outside"] < c["U"][0]
+        end = float(ref.U[0] if below else ref.U[-1])
+        uo = math.nextafter(end, -math.inf if below else math.inf)
+        uo = np.float64(uo) if num == "npfloat" else uo
+        out.cls("outside-by-one-ulp")
     for arg, label in ((uo, "alone"), ([lparams[0], uo, lparams[-1]], "in-sequence")):
         try:
             val = curve(arg)
